@@ -31,7 +31,7 @@ class C13(Prop):
     pid = "C13"
     prop_file = "Props/C13.v"
     module = "Props.C13"
-    gen_deps = ["Style"]
+    gen_deps = ["Style", "StyleFn"]
     harness = ("h-core", "hcore")
     nontrivial_rule = ("cases: every one of the 4096 effect sets (built from the twelve public constants) through is_plain/clear/contains/iter/Debug (eff1); "
                        "every set x the 12 singletons and a seeded sample of 10^5 pairs through insert/remove/contains/set/|/-/|=/-= with full results (effx); "
@@ -40,7 +40,9 @@ class C13(Prop):
                        "non-trivial = distinct case whose set / style / colour is not the empty one")
     trusted = ["the harness reads the raw u16 of an Effects through its derived Hash and names a set by its mask over the twelve public constants "
                "(theorem c13_mask_of_constants: that naming is the identity for the translated constants)",
-               "effrow compares 32-bit FNV-1a digests of 4096 results per operation (thorough tier only; the quick streams compare full results)"]
+               "effrow compares 32-bit FNV-1a digests of 4096 results per operation (thorough tier only; the quick streams compare full results)",
+               "function translation (Generated/StyleFn.v): core::fmt::Formatter in <Effects as Debug>::fmt is modelled as the text written so far over an "
+               "infallible sink (write! appends and answers Ok(())); `1 << index` on u16 panics for index >= 16 (debug-build semantics)"]
     assumptions = ["Effects values are built through the public API only, hence below 2^12 (theorems c13_valid_*)",
                    "Ansi256 indices and RGB components are u8"]
 
